@@ -23,6 +23,8 @@ pub struct Prog {
     pub ops: usize,
     pub switch_den: u64,
     pub readers: usize,
+    /// percentage of calls that are `reserve(1..=8)` (not part of the per-key histories)
+    pub reserve_pct: u64,
     pub seed: u64,
 }
 
@@ -37,12 +39,13 @@ impl Prog {
             .with("ops_per_thread", Json::u(self.ops))
             .with("switch_one_in", Json::u(self.switch_den))
             .with("pure_readers", Json::u(self.readers))
+            .with("reserve_percent", Json::u(self.reserve_pct))
             .with("program_seed", Json::u(self.seed))
     }
 }
 
 pub fn draw(rng: &mut Rng) -> Prog {
-    let shape = rng.below(6);
+    let shape = rng.below(8);
     let mut p = Prog {
         mode: *rng.pick(&[UNIFORM, IDENTITY, CONSTANT, SAMEBIN, MIXED]),
         cap: *rng.pick(&[0usize, 1, 2, 16, 64]),
@@ -52,6 +55,7 @@ pub fn draw(rng: &mut Rng) -> Prog {
         ops: rng.range(3, 8) as usize,
         switch_den: *rng.pick(&[2u64, 3, 4, 8]),
         readers: 0,
+        reserve_pct: 0,
         seed: rng.next(),
     };
     match shape {
@@ -71,6 +75,16 @@ pub fn draw(rng: &mut Rng) -> Prog {
             p.nkeys = rng.range(8, 30);
             p.prefill = 0;
             p.ops = rng.range(5, 12) as usize;
+            p.reserve_pct = *rng.pick(&[0u64, 0, 10]);
+        }
+        6 | 7 => {
+            // the race for the lazily created table: first inserts against small reserves
+            p.cap = 0;
+            p.prefill = 0;
+            p.threads = rng.range(2, 4) as usize;
+            p.ops = rng.range(1, 4) as usize;
+            p.reserve_pct = *rng.pick(&[30u64, 50]);
+            p.switch_den = *rng.pick(&[1u64, 2, 3]);
         }
         _ => {}
     }
@@ -110,6 +124,10 @@ fn execute(p: &Prog, sched_seed: u64, replay: Option<Vec<u8>>) -> Run {
         let reader = t < pp.readers;
         for _ in 0..pp.ops {
             let key = rng.below(pp.nkeys);
+            if !reader && rng.below(100) < pp.reserve_pct {
+                m.reserve(rng.range(1, 8) as usize, &g);
+                continue;
+            }
             let w = if reader { rng.below(30) } else { rng.below(100) };
             ctr += 1;
             let v = ((t as u64 + 1) << 32) | ctr;
@@ -219,7 +237,9 @@ pub fn run(ctx: &Ctx, prop: &str) -> Outcome {
                 .with("schedule", Json::u(i - 1))
                 .with("scheduler_seed", Json::u(sched_seed))
                 .with("program", p.to_json())
-                .with("decisions", Json::s(v.decisions.iter().map(|d| char::from(b'0' + *d)).collect::<String>()))
+                .with("decisions_total", Json::u(v.decisions.len()))
+                // (the schedule is re-derived from the seeds; the decisions are for the reader)
+                .with("decisions", Json::s(v.decisions.iter().take(4000).map(|d| char::from(b'0' + *d)).collect::<String>()))
         };
         if r.res.watchdog {
             out.inconclusive.push(format!("serial schedule {} hit the wall-clock watchdog (a blocking call without a hook?) {}", i - 1, p.to_json()));
@@ -244,8 +264,12 @@ pub fn run(ctx: &Ctx, prop: &str) -> Outcome {
             let lockish: Vec<&String> = r.audit_failures.iter().filter(|f| f.contains("lock") || f.contains("waiter")).collect();
             if prop == "c11" && lockish.is_empty() {
                 // a malformed table at the end of a schedule is C05's / C01's business
-                out.inconclusive.push(format!("schedule {} ended with a malformed table (belongs to C05, not a liveness verdict): {}", i - 1, r.audit_failures.join("; ")));
-                break;
+                // (keep exploring: a liveness violation found later still counts)
+                out.add("foreign_findings", 1);
+                if out.inconclusive.len() < 3 {
+                    out.inconclusive.push(format!("schedule {} ended with a malformed table (belongs to C05, not a liveness verdict): {}", i - 1, r.audit_failures.join("; ")));
+                }
+                continue;
             }
             out.violate(
                 if prop == "c11" { "c11/serial/lock-state".to_string() } else { format!("{prop}/serial/structure") },
@@ -278,8 +302,11 @@ pub fn run(ctx: &Ctx, prop: &str) -> Outcome {
             out.sample(Json::obj().with("program", p.to_json()).with("steps", Json::u(r.res.steps)).with("token_switches", Json::u(r.res.switches)).with("decisions", Json::s(r.res.decisions.iter().take(120).map(|d| char::from(b'0' + *d)).collect::<String>())));
         }
         if hr.violation.is_some() && prop == "c11" {
-            out.inconclusive.push(format!("schedule {} produced a non-linearizable history (belongs to C01, not a liveness verdict) [{}]", i - 1, p.to_json()));
-            break;
+            out.add("foreign_findings", 1);
+            if out.inconclusive.len() < 3 {
+                out.inconclusive.push(format!("schedule {} produced a non-linearizable history (belongs to C01, not a liveness verdict) [{}]", i - 1, p.to_json()));
+            }
+            continue;
         }
         if let Some((k, h)) = hr.violation {
             let hs = h.iter().map(|e| format!("t{}[{}..{}]{:?}", e.thread, e.call, e.ret, e.op)).collect::<Vec<_>>().join(" | ");
